@@ -31,6 +31,11 @@ theorem errText_ok (e : List Nat) (h : ErrOk e) : errText e = some e := by
   rw [h.2]
   simp
 
+theorem withErr_ok {α : Type} (e : List Nat) (h : ErrOk e) (k : Option (List Nat) → α) : withErr e k = .ok (k (some e)) := by
+  unfold withErr
+  rw [h.2]
+  simp
+
 theorem parseUid36_digits (u : Nat) (h : u < 36 * 36) :
     parseUid36 (base36Digit (u / 36)) (base36Digit (u % 36)) = some u := by
   have h1 : u / 36 < 36 := by omega
@@ -65,7 +70,7 @@ theorem decodeResp_encodeResp (b32 down : Codec) (hb : b32.Good) (hd : down.Good
       parseUid36_digits uid (by omega), hbody, rd32_le32 ver hver]
     cases err with
     | none => simp [statusBody]
-    | some e => simp [statusBody, errText_ok e (herr e rfl)]
+    | some e => simp [statusBody, withErr_ok e (herr e rfl)]
   | options err =>
     have hf : SA.Gen.C09.commandTable.find? (fun e => (111 == e.1 || lower 111 == e.1)) = some (111, true, true, true) := by decide
     have hbody := hb.roundtrip (statusBody err [0])
@@ -74,7 +79,7 @@ theorem decodeResp_encodeResp (b32 down : Codec) (hb : b32.Good) (hd : down.Good
     simp only [decodeResp, hf, if_true, decodeBody, List.drop_succ_cons, List.drop_zero, hbody]
     cases err with
     | none => simp [statusBody]
-    | some e => simp [statusBody, errText_ok e (hr e rfl)]
+    | some e => simp [statusBody, withErr_ok e (hr e rfl)]
   | packet err ack pkt =>
     obtain ⟨herr, hack, hpkt, hcanon⟩ := hr
     have hf : SA.Gen.C09.commandTable.find? (fun e => (99 == e.1 || lower 99 == e.1)) = some (99, true, true, true) := by decide
@@ -84,7 +89,7 @@ theorem decodeResp_encodeResp (b32 down : Codec) (hb : b32.Good) (hd : down.Good
       have hbody := hd.roundtrip (255 :: e) (bytes_cons (by decide) (herr e rfl).1)
       simp only [encodeResp, statusBody]
       simp only [decodeResp, hf, if_true, decodeBody, List.drop_succ_cons, List.drop_zero, hbody]
-      simp [errText_ok e (herr e rfl)]
+      simp [withErr_ok e (herr e rfl)]
     | none =>
       cases pkt with
       | none =>
@@ -130,7 +135,7 @@ theorem decodeResp_encodeResp (b32 down : Codec) (hb : b32.Good) (hd : down.Good
     | some e =>
       have := hcanon rfl
       subst this
-      simp [statusBody, errText_ok e (herr e rfl)]
+      simp [statusBody, withErr_ok e (herr e rfl)]
   | fragSize err frag data =>
     obtain ⟨herr, hfrag, hdata, hcanon⟩ := hr
     have hf : SA.Gen.C09.commandTable.find? (fun e => (114 == e.1 || lower 114 == e.1)) = some (114, true, true, true) := by decide
@@ -142,14 +147,14 @@ theorem decodeResp_encodeResp (b32 down : Codec) (hb : b32.Good) (hd : down.Good
     | none => simp [statusBody, rd32_le32 frag hfrag]
     | some e =>
       obtain ⟨rfl, rfl⟩ := hcanon rfl
-      simp [statusBody, errText_ok e (herr e rfl)]
+      simp [statusBody, withErr_ok e (herr e rfl)]
   | error err =>
     obtain ⟨e, rfl, he⟩ := hr
     have hf : SA.Gen.C09.commandTable.find? (fun e => (101 == e.1 || lower 101 == e.1)) = some (101, false, false, true) := by decide
     have hbody := hb.roundtrip e he.1
     simp only [encodeResp, Option.getD_some]
     simp only [decodeResp, hf, if_true, decodeBody, List.drop_succ_cons, List.drop_zero, hbody]
-    simp [errText_ok e he]
+    simp [withErr_ok e he]
 
 /-! ### one record over the wire -/
 
